@@ -66,17 +66,25 @@ Section Refine.
   Local Notation validate := (validate S O).
   Local Notation spec := (spec O).
 
-  (* the claim for one validator: on its input domain the call returns what the documented predicate demands,
-     and every rejection is a ValidatorException *)
+  (* The messages of the rejections are f-strings over the value (and the bound) that are evaluated BEFORE the
+     exception is raised; printing an int of more than 4300 digits raises ValueError.  `fmt_ok` says that a value
+     prints.  The claim for one validator: on its input domain and for printable values the call returns what the
+     documented predicate demands, every rejection is a ValidatorException, and what it returns prints again
+     (so that the claim carries through the chain of children of a ForEach). *)
   Definition meets (w : validator) : Prop :=
-    forall v, spec w v <> SOut -> validate w v = outcome_of (spec w v).
+    forall v, fmt_ok v = true -> spec w v <> SOut ->
+      validate w v = outcome_of (spec w v) /\ (forall r, spec w v = SAccept r -> fmt_ok r = true).
+
+  Local Notation rej := (@reject value VEC).
 
   (* ----- Min / Max ----- *)
   Lemma in_dom_numbers : forall d v, dom_numbers_ok d = true -> is_number v = true -> in_dom d v = true.
   Proof. intros [] [] D N; simpl in *; congruence. Qed.
 
+  (* exact, for all numbers - including what happens when the message cannot be printed *)
   Lemma min_sem : forall b incl v x y, num_view v = Some x -> num_view b = Some y ->
-    validate (WMin b incl) v = if min_ref incl (xcmp x y) then Raise VEC else Ok v.
+    validate (WMin b incl) v =
+    if min_ref incl (xcmp x y) then rej (tests_fmt (s_min_tests S) incl (xcmp x y)) v b else Ok v.
   Proof.
     intros b incl v x y Vx Vy. simpl. unfold bound_validate.
     rewrite in_dom_numbers; [| apply (g_min_dom S G) | destruct v; simpl in Vx; try discriminate; reflexivity].
@@ -85,7 +93,8 @@ Section Refine.
   Qed.
 
   Lemma max_sem : forall b incl v x y, num_view v = Some x -> num_view b = Some y ->
-    validate (WMax b incl) v = if max_ref incl (xcmp x y) then Raise VEC else Ok v.
+    validate (WMax b incl) v =
+    if max_ref incl (xcmp x y) then rej (tests_fmt (s_max_tests S) incl (xcmp x y)) v b else Ok v.
   Proof.
     intros b incl v x y Vx Vy. simpl. unfold bound_validate.
     rewrite in_dom_numbers; [| apply (g_max_dom S G) | destruct v; simpl in Vx; try discriminate; reflexivity].
@@ -93,72 +102,94 @@ Section Refine.
     reflexivity.
   Qed.
 
-  (* Min, ALL numbers (ints, bools, every float incl. +-inf and NaN): accepted (unchanged) exactly when
-     value >= bound, resp. > *)
-  Lemma min_exact : forall b incl v, is_number v = true -> is_number b = true ->
-    validate (WMin b incl) v = if sat_min b incl v then Ok v else Raise VEC.
+  (* ALL numbers (ints, bools, every float incl. +-inf and NaN): accepted (unchanged) exactly when value >= bound,
+     resp. >; a rejection is a ValidatorException unless its message cannot be printed, then it is a ValueError *)
+  Lemma min_exact_full : forall b incl v, is_number v = true -> is_number b = true ->
+    validate (WMin b incl) v = (if sat_min b incl v then Ok v else Raise VEC) \/
+    (sat_min b incl v = false /\ fmt_ok v && fmt_ok b = false /\ validate (WMin b incl) v = Raise ValueErrorC).
   Proof.
     intros b incl v Nv Nb.
     destruct (number_view v Nv) as [x Vx]. destruct (number_view b Nb) as [y Vy].
     rewrite (min_sem b incl v x y Vx Vy), (sat_min_cmp v b x y incl Vx Vy).
+    destruct (min_ref incl (xcmp x y)); simpl; [|left; reflexivity].
+    destruct (fmt_ok v) eqn:Fv, (fmt_ok b) eqn:Fb; simpl;
+      try (left; now apply reject_ok);
+      destruct (reject_cases value VEC (tests_fmt (s_min_tests S) incl (xcmp x y)) v b) as [R|R]; rewrite R; auto.
+  Qed.
+
+  Lemma min_exact : forall b incl v, is_number v = true -> is_number b = true -> fmt_ok v = true -> fmt_ok b = true ->
+    validate (WMin b incl) v = if sat_min b incl v then Ok v else Raise VEC.
+  Proof.
+    intros b incl v Nv Nb Fv Fb.
+    destruct (number_view v Nv) as [x Vx]. destruct (number_view b Nb) as [y Vy].
+    rewrite (min_sem b incl v x y Vx Vy), (sat_min_cmp v b x y incl Vx Vy), (reject_ok _ _ _ _ _ Fv Fb).
     now destruct (min_ref incl (xcmp x y)).
   Qed.
 
-  Lemma max_exact : forall b incl v, is_number v = true -> is_number b = true ->
+  Lemma max_exact : forall b incl v, is_number v = true -> is_number b = true -> fmt_ok v = true -> fmt_ok b = true ->
     validate (WMax b incl) v = if sat_max b incl v then Ok v else Raise VEC.
   Proof.
-    intros b incl v Nv Nb.
+    intros b incl v Nv Nb Fv Fb.
     destruct (number_view v Nv) as [x Vx]. destruct (number_view b Nb) as [y Vy].
-    rewrite (max_sem b incl v x y Vx Vy), (sat_max_cmp v b x y incl Vx Vy).
+    rewrite (max_sem b incl v x y Vx Vy), (sat_max_cmp v b x y incl Vx Vy), (reject_ok _ _ _ _ _ Fv Fb).
     now destruct (max_ref incl (xcmp x y)).
   Qed.
 
   (* NaN (as value or as bound) is rejected by every Min and every Max *)
-  Lemma minmax_nan_rejected : forall b incl v, is_number v = true -> is_number b = true -> is_nan v || is_nan b = true ->
+  Lemma minmax_nan_rejected : forall b incl v, is_number v = true -> is_number b = true -> fmt_ok v = true -> fmt_ok b = true ->
+    is_nan v || is_nan b = true ->
     validate (WMin b incl) v = Raise VEC /\ validate (WMax b incl) v = Raise VEC.
   Proof.
-    intros b incl v Nv Nb A. rewrite (min_exact b incl v Nv Nb), (max_exact b incl v Nv Nb).
+    intros b incl v Nv Nb Fv Fb A. rewrite (min_exact b incl v Nv Nb Fv Fb), (max_exact b incl v Nv Nb Fv Fb).
     destruct (sat_nan b incl v A) as [-> ->]. split; reflexivity.
   Qed.
 
-  Lemma meets_min : forall b incl, meets (WMin b incl).
+  Lemma meets_min : forall b incl, fmt_ok b = true -> meets (WMin b incl).
   Proof.
-    intros b incl v Hs. cbn [ValidatorsSpec.spec] in *.
+    intros b incl Fb v Fv Hs. cbn [ValidatorsSpec.spec] in *.
     destruct (is_number v && is_number b) eqn:N; [|congruence]. apply andb_true_iff in N as [Nv Nb].
-    rewrite (min_exact b incl v Nv Nb). now destruct (sat_min b incl v).
+    rewrite (min_exact b incl v Nv Nb Fv Fb). destruct (sat_min b incl v); split; try reflexivity; intros r E; congruence.
   Qed.
 
-  Lemma meets_max : forall b incl, meets (WMax b incl).
+  Lemma meets_max : forall b incl, fmt_ok b = true -> meets (WMax b incl).
   Proof.
-    intros b incl v Hs. cbn [ValidatorsSpec.spec] in *.
+    intros b incl Fb v Fv Hs. cbn [ValidatorsSpec.spec] in *.
     destruct (is_number v && is_number b) eqn:N; [|congruence]. apply andb_true_iff in N as [Nv Nb].
-    rewrite (max_exact b incl v Nv Nb). now destruct (sat_max b incl v).
+    rewrite (max_exact b incl v Nv Nb Fv Fb). destruct (sat_max b incl v); split; try reflexivity; intros r E; congruence.
   Qed.
 
-  (* ----- MinLength / MaxLength: every value, every limit ----- *)
+  (* ----- MinLength / MaxLength: every printable value, every limit ----- *)
   Lemma in_dom_sized : forall v, in_dom DomSized v = match py_len v with Some _ => true | None => false end.
   Proof. reflexivity. Qed.
 
-  Lemma minlen_exact : forall n v,
+  Lemma minlen_exact : forall n v, fmt_ok v = true ->
     validate (WMinLen n) v = match py_len v with Some l => if n <=? l then Ok v else Raise VEC | None => Raise VEC end.
   Proof.
-    intros n v. simpl. unfold length_validate. rewrite (g_minlen_dom S G), (g_minlen_op S G), (g_vexc S G), in_dom_sized.
+    intros n v Fv. simpl. unfold length_validate. rewrite (g_minlen_dom S G), (g_minlen_op S G), (g_vexc S G), in_dom_sized.
+    rewrite !(reject_ok _ _ _ _ _ Fv (eq_refl : fmt_ok VNone = true)).
     destruct (py_len v) as [l|]; cbn [negb]; [|reflexivity]. rewrite z_cmp_lt.
     destruct (l <? n) eqn:E, (n <=? l) eqn:F; try reflexivity; lia.
   Qed.
 
-  Lemma maxlen_exact : forall n v,
+  Lemma maxlen_exact : forall n v, fmt_ok v = true ->
     validate (WMaxLen n) v = match py_len v with Some l => if l <=? n then Ok v else Raise VEC | None => Raise VEC end.
   Proof.
-    intros n v. simpl. unfold length_validate. rewrite (g_maxlen_dom S G), (g_maxlen_op S G), (g_vexc S G), in_dom_sized.
+    intros n v Fv. simpl. unfold length_validate. rewrite (g_maxlen_dom S G), (g_maxlen_op S G), (g_vexc S G), in_dom_sized.
+    rewrite !(reject_ok _ _ _ _ _ Fv (eq_refl : fmt_ok VNone = true)).
     destruct (py_len v) as [l|]; cbn [negb]; [|reflexivity]. rewrite z_cmp_gt.
     destruct (n <? l) eqn:E, (l <=? n) eqn:F; try reflexivity; lia.
   Qed.
 
   Lemma meets_minlen : forall n, meets (WMinLen n).
-  Proof. intros n v _. rewrite minlen_exact. simpl. destruct (py_len v) as [l|]; [|reflexivity]. now destruct (n <=? l). Qed.
+  Proof.
+    intros n v Fv _. rewrite (minlen_exact n v Fv). simpl. destruct (py_len v) as [l|]; [destruct (n <=? l)|];
+      split; try reflexivity; intros r E; congruence.
+  Qed.
   Lemma meets_maxlen : forall n, meets (WMaxLen n).
-  Proof. intros n v _. rewrite maxlen_exact. simpl. destruct (py_len v) as [l|]; [|reflexivity]. now destruct (l <=? n). Qed.
+  Proof.
+    intros n v Fv _. rewrite (maxlen_exact n v Fv). simpl. destruct (py_len v) as [l|]; [destruct (l <=? n)|];
+      split; try reflexivity; intros r E; congruence.
+  Qed.
 
   (* ----- NotEmpty ----- *)
   Lemma empty_test_sem : forall op lit l, empty_test op lit = true -> 0 <= l -> z_cmp op l lit = (l =? 0).
@@ -174,15 +205,16 @@ Section Refine.
   Proof.
     intros strip s. simpl. pose proof (g_notempty S G) as N. unfold notempty_good in N.
     repeat (apply andb_true_iff in N as [N ?]). rewrite N, (g_vexc S G), all_ws_strip.
+    rewrite (reject_ok value _ _ (VStr s) VNone eq_refl eq_refl).
     destruct (all_ws s); [reflexivity|]. now destruct (ne_return (s_notempty S)).
   Qed.
 
-  Lemma notempty_other : forall strip v, is_str v = false ->
+  Lemma notempty_other : forall strip v, is_str v = false -> fmt_ok v = true ->
     validate (WNotEmpty strip) v =
     if is_sequence v then match py_len v with Some l => if l =? 0 then Raise VEC else Ok v | None => Raise VEC end
     else Raise VEC.
   Proof.
-    intros strip v NS. pose proof (g_notempty S G) as N. unfold notempty_good in N.
+    intros strip v NS Fv. pose proof (g_notempty S G) as N. unfold notempty_good in N.
     repeat (apply andb_true_iff in N as [N ?]).
     match goal with X : domkind_eqb _ _ = true |- _ => apply domkind_eqb_eq in X; rename X into D end.
     match goal with X : empty_test _ _ = true |- _ => rename X into E end.
@@ -190,11 +222,13 @@ Section Refine.
                 if in_dom (ne_seq_dom (s_notempty S)) v then
                   match py_len v with
                   | None => Raise TypeErrorC
-                  | Some l => if z_cmp (ne_seq_op (s_notempty S)) l (ne_seq_lit (s_notempty S)) then Raise (s_vexc S) else Ok v
+                  | Some l => if z_cmp (ne_seq_op (s_notempty S)) l (ne_seq_lit (s_notempty S))
+                              then reject (s_vexc S) (ne_fmt_seq (s_notempty S)) v VNone else Ok v
                   end
-                else Raise (s_vexc S)).
+                else reject (s_vexc S) (ne_fmt_else (s_notempty S)) v VNone).
     { destruct v; try reflexivity. discriminate. }
-    rewrite R, D, (g_vexc S G). simpl in_dom. destruct (is_sequence v) eqn:Q; [|reflexivity].
+    rewrite R, D, (g_vexc S G), !(reject_ok _ _ _ _ _ Fv (eq_refl : fmt_ok VNone = true)).
+    simpl in_dom. destruct (is_sequence v) eqn:Q; [|reflexivity].
     destruct (py_len v) as [l|] eqn:L.
     - now rewrite (empty_test_sem _ _ l E (py_len_nonneg v l L)).
     - destruct v; simpl in Q, L; discriminate.
@@ -202,10 +236,13 @@ Section Refine.
 
   Lemma meets_notempty : forall strip, meets (WNotEmpty strip).
   Proof.
-    intros strip v _. destruct (is_str v) eqn:IS.
-    - destruct v; try discriminate. rewrite notempty_str. simpl. now destruct (all_ws s).
-    - rewrite (notempty_other strip v IS). destruct v; try discriminate; simpl;
-        try reflexivity; match goal with |- context [?l =? 0] => now destruct (l =? 0) end.
+    intros strip v Fv _. destruct (is_str v) eqn:IS.
+    - destruct v; try discriminate. rewrite notempty_str. simpl.
+      destruct (all_ws s); split; try reflexivity; intros r E; try discriminate. injection E as <-. now destruct strip.
+    - rewrite (notempty_other strip v IS Fv).
+      destruct v; try discriminate; simpl; try (split; [reflexivity | intros r E; discriminate]);
+        match goal with |- context [?l =? 0] => destruct (l =? 0) end;
+        split; try reflexivity; intros r E; try discriminate; injection E as <-; exact Fv.
   Qed.
 
   (* ----- Email ----- *)
@@ -213,24 +250,33 @@ Section Refine.
     validate (WEmail None pp) (VStr s) = if email_predb s then Ok (pp_apply pp s) else Raise VEC.
   Proof.
     intros pp s. simpl. rewrite (g_email_mode S G), (g_vexc S G). simpl re_test.
-    now rewrite (g_email_re S G).
+    now rewrite (g_email_re S G), (reject_ok value _ _ (VStr s) VNone eq_refl eq_refl).
   Qed.
+
+  Lemma pp_apply_fmt : forall pp s, fmt_ok (pp_apply pp s) = true.
+  Proof. intros pp s0; destruct pp; reflexivity. Qed.
 
   Lemma meets_email : forall pat pp, meets (WEmail pat pp).
   Proof.
-    intros pat pp v Hs. destruct v; simpl in Hs; try congruence.
+    intros pat pp v _ Hs. destruct v; simpl in Hs; try congruence.
     destruct pat as [r|].
-    - simpl. rewrite (g_email_mode S G), (g_vexc S G). simpl. now destruct (re_fullmatch r s).
-    - rewrite email_default_str. simpl. now destruct (email_predb s).
+    - simpl. rewrite (g_email_mode S G), (g_vexc S G), (reject_ok value _ _ (VStr s) VNone eq_refl eq_refl). simpl.
+      destruct (re_fullmatch r s); split; try reflexivity; intros x E; try discriminate. injection E as <-. apply pp_apply_fmt.
+    - rewrite email_default_str. simpl.
+      destruct (email_predb s); split; try reflexivity; intros x E; try discriminate. injection E as <-. apply pp_apply_fmt.
   Qed.
 
-  (* ----- IsUuid ----- *)
+  (* ----- IsUuid (the parsing itself is the stdlib oracle on both sides: proved are the exception class of the
+     rejection and the convert flag) ----- *)
   Lemma meets_uuid : forall convert, meets (WIsUuid convert).
   Proof.
-    intros convert v Hs. destruct v; simpl in Hs; try congruence.
-    simpl. unfold uuid_validate. simpl py_str. cbn [bind]. pose proof (ok_uuid O oracles s) as R.
-    destruct (o_uuid O s) as [u|e]; [reflexivity|]. simpl in R.
-    now rewrite (handle_rv _ _ _ _ _ (g_uuid S G) R), (g_vexc S G).
+    intros convert v Fv Hs. destruct v; simpl in Hs; try congruence.
+    simpl. unfold uuid_validate. change (py_str O (VStr s)) with (@Ok str s). cbn [bind]. pose proof (ok_uuid O oracles s) as R.
+    pose proof (ok_uuid_fmt O oracles s) as RF.
+    destruct (o_uuid O s) as [u|e].
+    - split; [reflexivity|]. intros r E. injection E as <-. destruct convert; [now apply RF | exact Fv].
+    - simpl in R. rewrite (handle_rv _ _ _ _ _ (g_uuid S G) R), (g_vexc S G).
+      rewrite (reject_ok value _ _ (VStr s) VNone eq_refl eq_refl). split; [reflexivity | intros r E; discriminate].
   Qed.
 
   (* ----- IsEnum ----- *)
@@ -243,19 +289,29 @@ Section Refine.
     now destruct ((kind =? K_ENUM) && (0 <=? i) && (i <? zlen ms)).
   Qed.
 
+  Lemma member_of_fmt : forall ms v m, member_of ms v = Some m -> fmt_ok m = true.
+  Proof.
+    intros ms v m. unfold member_of.
+    assert (X : forall o, option_map (fun i => VOpq K_ENUM [i]) o = Some m -> fmt_ok m = true).
+    { intros [i|] E; simpl in E; [injection E as <-; reflexivity | discriminate]. }
+    destruct v; try apply X.
+    destruct payload as [|i [|? ?]]; try apply X.
+    destruct ((kind =? K_ENUM) && (0 <=? i) && (i <? zlen ms)); intro E; [injection E as <-; reflexivity | discriminate].
+  Qed.
+
   Lemma within_VE : within ValueErrorC [ValueErrorC; TypeErrorC] = true. Proof. reflexivity. Qed.
   Lemma within_TE : within TypeErrorC [ValueErrorC; TypeErrorC] = true. Proof. reflexivity. Qed.
-
   Lemma incl_VE : incl [ValueErrorC] [ValueErrorC; TypeErrorC].
   Proof. intros x [<-|[]]. left; reflexivity. Qed.
 
-  Lemma enum_handle : forall A e, within e [ValueErrorC] = true \/ e = TypeErrorC ->
-    @handle A (s_vexc S) (s_h_is_enum S) e = Raise VEC.
+  Lemma enum_handle : forall v1 e, fmt_ok v1 = true -> within e [ValueErrorC] = true \/ e = TypeErrorC ->
+    handle (@reject value (s_vexc S) (s_h_is_enum_fmt S) v1 VNone) (s_h_is_enum S) e = Raise VEC.
   Proof.
-    intros A e [W| ->].
+    intros v1 e F [W| ->].
     - rewrite (handle_rv _ _ _ _ _ (g_enum S G) (within_more _ _ _ W incl_VE)).
-      now rewrite (g_vexc S G).
-    - now rewrite (handle_rv _ _ _ _ _ (g_enum S G) within_TE), (g_vexc S G).
+      now rewrite (g_vexc S G), (reject_ok _ _ _ _ _ F (eq_refl : fmt_ok VNone = true)).
+    - rewrite (handle_rv _ _ _ _ _ (g_enum S G) within_TE).
+      now rewrite (g_vexc S G), (reject_ok _ _ _ _ _ F (eq_refl : fmt_ok VNone = true)).
   Qed.
 
   (* int(value) of the model (behind the float guard) against "the integer the value denotes" of the specification *)
@@ -294,41 +350,58 @@ Section Refine.
 
   Lemma meets_enum : forall ms ie convert upper, meets (WIsEnum ms ie convert upper).
   Proof.
-    intros ms ie convert upper v _.
+    intros ms ie convert upper v Fv _.
     cbn [ValidatorsSpec.spec Validators.validate]. unfold enum_validate.
     set (v1 := match v with VStr s => if upper then VStr (py_upper O s) else v | _ => v end).
+    assert (F1 : fmt_ok v1 = true). { subst v1. destruct v; try exact Fv. now destruct upper. }
+    assert (RES : forall m r, member_of ms m = Some r -> forall x,
+              SAccept (if convert then r else v1) = SAccept x -> fmt_ok x = true).
+    { intros m r M x E. injection E as <-. destruct convert; [now apply (member_of_fmt ms m) | exact F1]. }
     destruct ie.
     - pose proof (enum_int_value_denoted ms v1) as D.
       destruct (enum_int_value S O ms v1) as [z|e].
-      + rewrite D, enum_lookup_member. destruct (member_of ms (VInt z)); [reflexivity|].
-        apply enum_handle. left; reflexivity.
-      + destruct D as [D W]. rewrite D. now apply enum_handle.
-    - rewrite enum_lookup_member. destruct (member_of ms v1); [reflexivity|].
-      apply enum_handle. left; reflexivity.
+      + rewrite D, enum_lookup_member. destruct (member_of ms (VInt z)) eqn:M.
+        * split; [reflexivity | now apply (RES (VInt z))].
+        * split; [apply enum_handle; auto | intros r E; discriminate].
+      + destruct D as [D W]. rewrite D. split; [now apply enum_handle | intros r E; discriminate].
+    - rewrite enum_lookup_member. destruct (member_of ms v1) eqn:M.
+      + split; [reflexivity | now apply (RES v1)].
+      + split; [apply enum_handle; auto | intros r E; discriminate].
   Qed.
 
   (* ----- MatchPattern, DatetimeIsoFormat, DateTimeUnixTimestamp ----- *)
   Lemma match_str : forall pat s, validate (WMatch pat) (VStr s) = if re_search pat s then Ok (VStr s) else Raise VEC.
-  Proof. intros. simpl. unfold match_validate. simpl py_str. now rewrite (g_match_mode S G), (g_vexc S G). Qed.
+  Proof.
+    intros. simpl. unfold match_validate. change (py_str O (VStr s)) with (@Ok str s). cbv iota.
+    now rewrite (g_match_mode S G), (g_vexc S G), (reject_ok value _ _ (VStr s) VNone eq_refl eq_refl).
+  Qed.
 
   Lemma meets_match : forall pat, meets (WMatch pat).
   Proof.
-    intros pat v Hs. destruct v; simpl in Hs; try congruence. rewrite match_str. simpl. now destruct (re_search pat s).
+    intros pat v Fv Hs. destruct v; simpl in Hs; try congruence. rewrite match_str. simpl.
+    destruct (re_search pat s); split; try reflexivity; intros r E; try discriminate. now injection E as <-.
   Qed.
 
+  (* fromisoformat is the stdlib oracle on both sides: proved is the exception class of the rejection *)
   Lemma meets_iso : meets WIso.
   Proof.
-    intros v _. simpl. unfold iso_validate. pose proof (ok_iso O oracles v) as R.
-    destruct (o_fromiso O v) as [d|e]; [reflexivity|]. simpl in R.
-    now rewrite (handle_rv _ _ _ _ _ (g_iso S G) R), (g_vexc S G).
+    intros v Fv _. simpl. unfold iso_validate. pose proof (ok_iso O oracles v) as R. pose proof (ok_iso_fmt O oracles v) as RF.
+    destruct (o_fromiso O v) as [d|e].
+    - split; [reflexivity|]. intros r E. injection E as <-. now apply RF.
+    - simpl in R. rewrite (handle_rv _ _ _ _ _ (g_iso S G) R), (g_vexc S G), (reject_ok _ _ _ _ _ Fv (eq_refl : fmt_ok VNone = true)).
+      split; [reflexivity | intros r E; discriminate].
   Qed.
 
-  Lemma epoch_step : forall f,
-    match o_epoch_plus O f with Ok d => Ok d | Raise e => handle VEC (s_h_unix_add S) e end =
-    outcome_of (match o_epoch_plus O f with Ok d => SAccept d | Raise _ => SReject end).
+  Lemma epoch_step : forall v f, fmt_ok v = true ->
+    match o_epoch_plus O f with Ok d => Ok d | Raise e => handle (reject VEC (s_h_unix_add_fmt S) v VNone) (s_h_unix_add S) e end =
+    outcome_of (match o_epoch_plus O f with Ok d => SAccept d | Raise _ => SReject end) /\
+    (forall r, match o_epoch_plus O f with Ok d => SAccept d | Raise _ => SReject end = SAccept r -> fmt_ok r = true).
   Proof.
-    intro f. pose proof (ok_epoch O oracles f) as R. destruct (o_epoch_plus O f) as [d|e]; [reflexivity|].
-    simpl in R. now rewrite (handle_rv _ _ _ _ _ (g_unix_add S G) R).
+    intros v f Fv. pose proof (ok_epoch O oracles f) as R. pose proof (ok_epoch_fmt O oracles f) as RF.
+    destruct (o_epoch_plus O f) as [d|e].
+    - split; [reflexivity|]. intros r E. injection E as <-. now apply RF.
+    - simpl in R. rewrite (handle_rv _ _ _ _ _ (g_unix_add S G) R), (reject_ok _ _ _ _ _ Fv (eq_refl : fmt_ok VNone = true)).
+      split; [reflexivity | intros r E; discriminate].
   Qed.
 
   Lemma within_OE : within OverflowErrorC [ValueErrorC; OverflowErrorC] = true. Proof. reflexivity. Qed.
@@ -345,57 +418,67 @@ Section Refine.
 
   Lemma meets_unix : meets WUnix.
   Proof.
-    intros v _. simpl. unfold unix_validate.
+    intros v Fv _. simpl. unfold unix_validate.
     rewrite (g_unix_dom S G), (g_vexc S G).
-    destruct v; simpl; try reflexivity.
-    - apply epoch_step.
-    - destruct (float_of_Z z) as [f|e] eqn:F; [apply epoch_step|].
-      apply float_of_Z_raises in F as ->. now rewrite (handle_rv _ _ _ _ _ (g_unix_float S G) within_OE).
-    - apply epoch_step.
-    - pose proof (ok_float O oracles s) as R. destruct (o_float_of_str O s) as [f|e]; [apply epoch_step|].
-      cbn [raises_within] in R. now rewrite (handle_rv _ _ _ _ _ (g_unix_float S G) (within_more _ _ _ R incl_VE_unix)).
+    assert (RJ : forall f, @reject value VEC f v VNone = Raise VEC)
+      by (intro f; apply (reject_ok _ _ _ _ _ Fv (eq_refl : fmt_ok VNone = true))).
+    destruct v; simpl; try (rewrite RJ; split; [reflexivity | intros r E; discriminate]).
+    - now apply epoch_step.
+    - destruct (float_of_Z z) as [f|e] eqn:F; [now apply epoch_step|].
+      apply float_of_Z_raises in F as ->. rewrite (handle_rv _ _ _ _ _ (g_unix_float S G) within_OE), RJ.
+      split; [reflexivity | intros r E; discriminate].
+    - now apply epoch_step.
+    - pose proof (ok_float O oracles s) as R. destruct (o_float_of_str O s) as [f|e]; [now apply epoch_step|].
+      cbn [raises_within] in R. rewrite (handle_rv _ _ _ _ _ (g_unix_float S G) (within_more _ _ _ R incl_VE_unix)), RJ.
+      split; [reflexivity | intros r E; discriminate].
   Qed.
 
-  Lemma meets_leaf : forall w, is_leaf w -> meets w.
+  Lemma meets_leaf : forall w, is_leaf w -> w_fmt_ok w = true -> meets w.
   Proof.
-    intros [] L; try contradiction.
-    - apply meets_min. - apply meets_max. - apply meets_minlen. - apply meets_maxlen. - apply meets_notempty.
+    intros [] L W; try contradiction.
+    - now apply meets_min. - now apply meets_max. - apply meets_minlen. - apply meets_maxlen. - apply meets_notempty.
     - apply meets_email. - apply meets_uuid. - apply meets_enum. - apply meets_match. - apply meets_iso. - apply meets_unix.
   Qed.
 
   (* ----- Composite: by induction on the children ----- *)
-  Lemma composite_children : forall cs v, Forall meets cs ->
+  Lemma composite_children : forall cs v, Forall meets cs -> fmt_ok v = true ->
     all_accept spec cs v <> SOut ->
     run_children validate false cs v = match all_accept spec cs v with SAccept _ => Ok v | _ => Raise VEC end.
   Proof.
-    induction cs as [|c cs IH]; intros v F Hs; simpl in *; [reflexivity|].
+    induction cs as [|c cs IH]; intros v F Fv Hs; simpl in *; [reflexivity|].
     inversion F as [|? ? Mc Fcs]; subst.
     assert (Sc : spec c v <> SOut) by (destruct (spec c v); congruence).
-    rewrite (Mc v Sc). destruct (spec c v) as [| |r]; simpl; try reflexivity; try congruence.
+    destruct (Mc v Fv Sc) as [-> _]. destruct (spec c v) as [| |r]; simpl; try reflexivity; try congruence.
     now apply IH.
   Qed.
+
+  Lemma all_accept_value : forall l x r, all_accept spec l x = SAccept r -> r = x.
+  Proof. induction l as [|a l IHl]; simpl; intros x r0 H; [congruence|]. destruct (spec a x); try discriminate. eauto. Qed.
 
   Lemma meets_composite : forall cs, Forall meets cs -> meets (WComposite cs).
   Proof.
-    intros cs F v Hs. cbn [ValidatorsSpec.spec Validators.validate] in *.
-    rewrite (g_co_threads S G), (g_co_ret S G), (composite_children cs v F Hs).
-    destruct (all_accept spec cs v) eqn:E; try reflexivity.
-    (* all_accept returns the value itself *)
-    assert (X : forall l x r, all_accept spec l x = SAccept r -> r = x).
-    { induction l as [|a l IHl]; simpl; intros x r0 H; [congruence|]. destruct (spec a x); try discriminate. eauto. }
-    simpl. now rewrite (X _ _ _ E).
+    intros cs F v Fv Hs. cbn [ValidatorsSpec.spec Validators.validate] in *.
+    rewrite (g_co_threads S G), (g_co_ret S G), (composite_children cs v F Fv Hs).
+    destruct (all_accept spec cs v) eqn:E.
+    - congruence.
+    - split; [reflexivity | intros x Ex; discriminate].
+    - rewrite (all_accept_value _ _ _ E). split; [reflexivity | intros x Ex; now injection Ex as <-].
   Qed.
 
   (* ----- ForEach: by induction on the children (one item) and on the items ----- *)
-  Lemma foreach_pipe : forall cs it, Forall meets cs ->
+  Lemma foreach_pipe : forall cs it, Forall meets cs -> fmt_ok it = true ->
     pipe spec cs it <> SOut ->
-    run_children validate true cs it = outcome_of (pipe spec cs it).
+    run_children validate true cs it = outcome_of (pipe spec cs it) /\
+    (forall r, pipe spec cs it = SAccept r -> fmt_ok r = true).
   Proof.
-    induction cs as [|c cs IH]; intros it F Hs; simpl in *; [reflexivity|].
-    inversion F as [|? ? Mc Fcs]; subst.
-    assert (Sc : spec c it <> SOut) by (destruct (spec c it); congruence).
-    rewrite (Mc it Sc). destruct (spec c it) as [| |r]; simpl; try reflexivity; try congruence.
-    now apply IH.
+    induction cs as [|c cs IH]; intros it F Fi Hs; simpl in *.
+    - split; [reflexivity|]. intros r E. now injection E as <-.
+    - inversion F as [|? ? Mc Fcs]; subst.
+      assert (Sc : spec c it <> SOut) by (destruct (spec c it); congruence).
+      destruct (Mc it Fi Sc) as [-> Fr]. destruct (spec c it) as [| |r]; simpl.
+      + congruence.
+      + split; [reflexivity | intros x E; discriminate].
+      + apply IH; auto.
   Qed.
 
   Lemma each_accept_list : forall one items r, each_accept one items = SAccept r -> exists rs, r = VList rs.
@@ -406,40 +489,53 @@ Section Refine.
       injection H as <-. eauto.
   Qed.
 
-  Lemma foreach_items : forall cs items, Forall meets cs ->
+  Lemma foreach_items : forall cs items, Forall meets cs -> forallb fmt_ok items = true ->
     each_accept (pipe spec cs) items <> SOut ->
     match each_item (run_children validate true cs) false items with Ok rs => Ok (VList rs) | Raise e => Raise e end
-    = outcome_of (each_accept (pipe spec cs) items).
+    = outcome_of (each_accept (pipe spec cs) items) /\
+    (forall r, each_accept (pipe spec cs) items = SAccept r -> fmt_ok r = true).
   Proof.
-    intros cs items F. induction items as [|it items IH]; intros Hs; simpl in *; [reflexivity|].
-    assert (Si : pipe spec cs it <> SOut) by (destruct (pipe spec cs it); congruence).
-    rewrite (foreach_pipe cs it F Si).
-    destruct (pipe spec cs it) as [| |r]; simpl; try reflexivity; try congruence.
-    assert (Sr : each_accept (pipe spec cs) items <> SOut).
-    { destruct (each_accept (pipe spec cs) items) as [| |[]]; congruence. }
-    specialize (IH Sr).
-    destruct (each_accept (pipe spec cs) items) as [| |r'] eqn:E.
-    - congruence.
-    - simpl in *. destruct (each_item _ false items); [discriminate | assumption].
-    - destruct (each_accept_list _ _ _ E) as [rs ->]. simpl in *.
-      destruct (each_item _ false items); [|discriminate]. injection IH as ->. reflexivity.
+    intros cs items F. induction items as [|it items IH]; intros Fi Hs; simpl in *.
+    - split; [reflexivity|]. intros r E. now injection E as <-.
+    - apply andb_true_iff in Fi as [Fit Fis].
+      assert (Si : pipe spec cs it <> SOut) by (destruct (pipe spec cs it); congruence).
+      destruct (foreach_pipe cs it F Fit Si) as [-> Fr].
+      destruct (pipe spec cs it) as [| |r]; simpl.
+      + congruence.
+      + split; [reflexivity | intros x E; discriminate].
+      + assert (Sr : each_accept (pipe spec cs) items <> SOut).
+        { destruct (each_accept (pipe spec cs) items) as [| |[]]; congruence. }
+        destruct (IH Fis Sr) as [IH1 IH2].
+        destruct (each_accept (pipe spec cs) items) as [| |r'] eqn:E.
+        * congruence.
+        * simpl in *. destruct (each_item _ false items); [discriminate|].
+          split; [assumption | intros x Ex; discriminate].
+        * destruct (each_accept_list _ _ _ E) as [rs ->]. simpl in *.
+          destruct (each_item _ false items); [|discriminate]. injection IH1 as ->.
+          split; [reflexivity|]. intros x Ex. injection Ex as <-.
+          rewrite fmt_ok_list. simpl. rewrite (Fr r eq_refl). simpl. rewrite <- fmt_ok_list. now apply IH2.
   Qed.
 
   Lemma meets_foreach : forall cs, Forall meets cs -> meets (WForEach cs).
   Proof.
-    intros cs F v Hs. cbn [ValidatorsSpec.spec Validators.validate] in *.
+    intros cs F v Fv Hs. cbn [ValidatorsSpec.spec Validators.validate] in *.
     rewrite (g_fe_dom S G), (g_fe_threads S G), (g_fe_ret S G), (g_vexc S G). simpl in_dom.
-    destruct (iter_items v) as [items|]; simpl; [|reflexivity].
-    now apply foreach_items.
+    destruct (iter_items v) as [items|] eqn:I; simpl.
+    - apply foreach_items; auto. now apply (iter_items_fmt v).
+    - rewrite (reject_ok _ _ _ _ _ Fv (eq_refl : fmt_ok VNone = true)). split; [reflexivity | intros r E; discriminate].
   Qed.
 
-  (* for every validator tree and every value *)
-  Theorem validate_refines_spec : forall w, meets w.
+  (* for every validator tree whose bounds print, and every printable value *)
+  Theorem validate_refines_spec : forall w, w_fmt_ok w = true -> meets w.
   Proof.
-    apply validator_nested_ind.
-    - apply meets_leaf.
-    - apply meets_foreach.
-    - apply meets_composite.
+    apply (validator_nested_ind (fun w => w_fmt_ok w = true -> meets w)).
+    - intros w L W. now apply meets_leaf.
+    - intros cs F W. apply meets_foreach. rewrite w_fmt_ok_foreach in W.
+      rewrite Forall_forall in *. intros c Ic. apply F; [assumption|].
+      rewrite forallb_forall in W. now apply W.
+    - intros cs F W. apply meets_composite. rewrite w_fmt_ok_composite in W.
+      rewrite Forall_forall in *. intros c Ic. apply F; [assumption|].
+      rewrite forallb_forall in W. now apply W.
   Qed.
 
   (* validate_param differs from validate only by the label on the exception *)
@@ -449,7 +545,7 @@ Section Refine.
     apply handle_reraise. apply (g_param S G).
   Qed.
 
-  (* ----- Composite / ForEach directly on the model (no gaps involved) ----- *)
+  (* ----- Composite / ForEach directly on the model (all values, printable or not) ----- *)
   Lemma composite_ok_iff : forall cs v,
     validate (WComposite cs) v = Ok v <-> Forall (fun c => exists r, validate c v = Ok r) cs.
   Proof.
@@ -506,9 +602,15 @@ Section Refine.
   (* str(v) raises nothing but ValueError (an int beyond the digit limit) *)
   Lemma py_str_raises : forall v e, py_str O v = Raise e -> e = ValueErrorC.
   Proof.
-    intros v e. destruct v; simpl; try discriminate.
-    - destruct b; discriminate.
-    - destruct (str_of_int_cases z) as [-> | ->]; [discriminate|]. intro H. now injection H as <-.
+    intros v e. unfold py_str. destruct (fmt_ok v); cbn [negb].
+    - destruct v; try discriminate. destruct b; discriminate.
+    - intro H. now injection H as <-.
+  Qed.
+
+  Lemma py_str_int : forall z s, py_str O (VInt z) = Ok s -> str_of_int z = Ok s.
+  Proof.
+    intros z s. unfold py_str. cbn [fmt_ok]. unfold int_fmt_ok.
+    destruct (str_of_int_cases z) as [E|E]; rewrite E; cbn [negb]; [intro H; now injection H as <- | discriminate].
   Qed.
 
   Lemma within_VE1 : within ValueErrorC [ValueErrorC] = true. Proof. reflexivity. Qed.
@@ -550,14 +652,16 @@ Section Refine.
   (* convert_value inverts str() on ints: whenever str(z) exists (at most 4300 digits), it is read back as z *)
   Theorem convert_inverts_str_int : forall z s, py_str O (VInt z) = Ok s -> convert_value S O (VStr s) TInt = Ok (VInt z).
   Proof.
-    intros z s H. rewrite convert_refines_spec. unfold spec_convert. simpl isinstance_t. cbn [py_str] in *.
+    intros z s H. apply py_str_int in H.
     destruct (str_of_int_cases z) as [E|E]; rewrite E in H; [|discriminate]. injection H as <-.
+    rewrite convert_refines_spec. unfold spec_convert. simpl isinstance_t.
+    change (py_str O (VStr (show_Z z))) with (@Ok str (show_Z z)). cbv iota beta zeta.
     unfold py_lower. rewrite show_Z_strip, show_Z_ascii, show_Z_lower, (int_of_show O z _ E). reflexivity.
   Qed.
 
   (* ... and on bools *)
   Theorem convert_inverts_str_bool : forall b s, py_str O (VBool b) = Ok s -> convert_value S O (VStr s) TBool = Ok (VBool b).
-  Proof. intros b s H. rewrite convert_refines_spec. destruct b; injection H as <-; reflexivity. Qed.
+  Proof. intros b s H. rewrite convert_refines_spec. destruct b; simpl in H; injection H as <-; reflexivity. Qed.
 
   (* the whole bool table: exactly 'true' / '1' and 'false' / '0' after strip().lower() *)
   Theorem convert_bool_table : forall v s0, isinstance_t v TBool = false -> py_str O v = Ok s0 ->
